@@ -137,6 +137,29 @@ func (e *viewEngine) Exec(line string) (obs string, viol string) {
 		v := e.get(tk[1])
 		v.Epoch, v.Timestamp, v.ProtocolVersion = atoi(tk[2]), e.tsIn(atoi(tk[3])), uint16(atoi(tk[4]))
 		return e.dump(v), ""
+	case tk[0] == "touch" && len(tk) == 5:
+		// in-place update of a stored member state, as NodeActor does (failure detection sets Status, gossip receipt
+		// refreshes the clock): every view owns its states, so no other view may change
+		v := e.get(tk[1])
+		others := map[string]string{}
+		for name, o := range e.regs {
+			if o != v {
+				others[name] = e.dump(o)
+			}
+		}
+		if m := v.Members[tk[2]]; m != nil {
+			m.Status = cluster.MemberStatus(atoi(tk[3]))
+			m.LogicalClock = uint64(atoi(tk[4]))
+			if atoi(tk[4]) == 0 {
+				e.nonWF = true
+			}
+		}
+		for name, o := range e.regs {
+			if before, ok := others[name]; ok && e.dump(o) != before {
+				return e.dump(v), fmt.Sprintf("ALIASED: updating member %s of view %s in place changed view %s as well (the views share the state object): a member's state in a view changed with no merge", tk[2], tk[1], name)
+			}
+		}
+		return e.dump(v), ""
 	case tk[0] == "copy" && len(tk) == 3:
 		e.regs[tk[2]] = e.get(tk[1]).Snapshot()
 		return "ok", ""
@@ -408,6 +431,21 @@ func (e *viewEngine) Generate(c *Ctx) {
 		if wf && membersObs(o5) != membersObs(o3) {
 			c.R.Violate("view", "merge is not idempotent on membership")
 		}
+		// the owner of B (and of C) goes on updating its stored states in place; the views that merged from them keep
+		// what they adopted, and a later merge adopts the newer state by the usual rule
+		for _, src := range []string{"B", "C"} {
+			for _, id := range ids {
+				if _, member := e.get(src).Members[id]; member {
+					c.Do(fmt.Sprintf("touch %s %s %d %d", src, id, 1+c.Rng.Intn(4), 1+c.Rng.Intn(9)))
+					c.R.Hit("touch")
+				}
+			}
+		}
+		c.Do("dump AB")
+		c.Do("dump ABC")
+		c.Do("dump BC")
+		c.Do(fmt.Sprintf("merge AB B %d %d", strat, skew))
+		c.Do(fmt.Sprintf("merge ABC C %d %d", strat, skew))
 		c.Do("leader ABC")
 		if skew == 1 {
 			c.R.Hit("skew-rule")
